@@ -41,6 +41,7 @@ func checkC14(p *ana.Prog, r *ana.Result) {
 	c14Tags(p, r)
 	c14CookieTags(p, r)
 	c14NTSKE(p, r)
+	c14FieldWalk(p, r)
 }
 
 // c14Lengths: the declared lengths used above are the repo's constants / length functions.
